@@ -35,11 +35,11 @@ def tlc_threads(cfgname, obs, nt, rounds, extra=(), props=True):
 def run(prop, tier, replay=None):
     t0 = time.time()
     A.build("plain", "tsan")
-    wrap = ["-Wl,--wrap=open,--wrap=fstat,--wrap=read,--wrap=close,--wrap=mmap,--wrap=mremap,--wrap=munmap"]
+    wrap = ["-Wl,--wrap=open,--wrap=fstat,--wrap=read,--wrap=close,--wrap=mmap,--wrap=mremap,--wrap=munmap,--wrap=fopen,--wrap=fwrite,--wrap=fclose"]
     exe = A.build_harness("threadrun", extra=wrap)
     # (the race detector must see the real mapping calls: wrapping mmap/munmap hides them from its interceptors and a buffer address
     #  reused by another thread is then reported as a race)
-    exe_tsan = A.build_harness("threadrun", variant="tsan", extra=["-Wl,--wrap=open,--wrap=fstat,--wrap=read,--wrap=close", "-DNO_MAP_WRAP"])
+    exe_tsan = A.build_harness("threadrun", variant="tsan", extra=["-Wl,--wrap=open,--wrap=fstat,--wrap=read,--wrap=close,--wrap=fopen,--wrap=fwrite,--wrap=fclose", "-DNO_MAP_WRAP"])
     work = os.path.join(A.BUILD, "work")
     os.makedirs(work, exist_ok=True)
     pid = os.getpid()
@@ -141,6 +141,12 @@ def run(prop, tier, replay=None):
     rr = subprocess.run([exe, "pair", "20" if tier == "quick" else "200"], capture_output=True, text=True, timeout=300)
     st = [json.loads(l) for l in rr.stdout.splitlines() if l.startswith('{"e":"Stress"')]
     tsan_events.append({"e": "Tsan", "threads": 2, "reports": st[0]["mismatches"] if st else 0, "exit": rr.returncode, "pair_moves": st[0]["moves"] if st else -1})
+    tsan_events.append({"e": "Reset"})
+    # 4d. binary output from two threads: thread 1 held behind fopen / behind fwrite (before the flushing fclose) of asm_create_bin_file
+    #     while thread 2 writes the code of its own instance to its own file; both files must be what they are when written alone
+    rr = subprocess.run([exe, "binpair"], capture_output=True, text=True, timeout=300, env=dict(os.environ, THR_DIR=thrdir))
+    st = [json.loads(l) for l in rr.stdout.splitlines() if l.startswith('{"e":"Stress"')]
+    tsan_events.append({"e": "Tsan", "threads": 2, "reports": st[0]["mismatches"] if st else 0, "exit": rr.returncode, "binpair_windows": st[0]["rounds"] if st else -1})
     tsan_events.append({"e": "Reset"})
     # 5. TLC validates everything
     tr = os.path.join(work, "thr-trace-%d.ndjson" % pid)
